@@ -168,6 +168,37 @@ def gen_conditions():
                 yield dict(kind=kind, L=L, ops=ops, stream="conditions", scope="in")
 
 
+def gen_cond_reload():
+    """the registered condition functions outlive a clear(): every reload, rebuild and rollback of the enforcer clears the
+    conditional manager and builds the assignments again (add_link + stored parameters). A diamond a -> b -> d,
+    a -> c -> d with every truth assignment to <= 3 link conditions, registered BEFORE the clear; the assignments come
+    back in either order, with the same or the opposite parameters (the answer follows the parameters stored last) or with
+    none (the stored parameters went with the assignment: the function is asked about no parameters)"""
+    edges = [("a", "b"), ("b", "d"), ("a", "c"), ("c", "d")]
+    for kind in ("cond", "conddomain"):
+        dom = "d1" if kind == "conddomain" else ""
+        dargs = (dom,) if dom else ()
+        for k in range(1, 4):
+            for which in itertools.combinations(range(4), k):
+                for truth in itertools.product("TF", repeat=k):
+                    for flip in (False, True, None):
+                        for back in (edges, edges[::-1]):
+                            ops = [["add", u, r, *dargs] for (u, r) in edges]
+                            for idx, t in zip(which, truth):
+                                u, r = edges[idx]
+                                ops += [["condfn", u, r, dom, "P0"], ["params", u, r, dom, [t, "x"]]]
+                            ops += [["has", "a", "d", *dargs], ["clear"], ["has", "a", "d", *dargs]]
+                            for u, r in back:
+                                ops.append(["add", u, r, *dargs])
+                                if edges.index((u, r)) in which and flip is not None:
+                                    t = truth[list(which).index(edges.index((u, r)))]
+                                    t = {"T": "F", "F": "T"}[t] if flip else t
+                                    ops.append(["params", u, r, dom, [t, "x"]])
+                            ops += [["has", "a", "d", *dargs], ["has", "a", "b", *dargs], ["has", "c", "d", *dargs], ["g", ["a", "d", *dargs]]]
+                            ops += [["roles", "a", *dargs], ["users", "d", *dargs]]
+                            yield dict(kind=kind, L=10, ops=ops, stream="cond-reload", scope="in")
+
+
 def gen_glue():
     """g() with 0..4 arguments, with and without a manager; build_role_links / incremental with short, long and
     exact rules, bad role definitions, unknown operations, too many domains"""
@@ -434,6 +465,289 @@ def replay_enforce(obj):
     return got != obj["expected"]
 
 
+# ------------------------------------------------------------------ Enforcer level, conditional role definitions
+
+RBAC_COND = RBAC.replace("g = _, _\n", "g = _, _, (_, _)\n")
+RBAC_DOM_COND = RBAC_DOM.replace("g = _, _, _\n", "g = _, _, _, (_, _)\n")
+assert "(_, _)" in RBAC_COND and "(_, _)" in RBAC_DOM_COND
+MAINT = ("reload", "rebuild", "reject", "clearload", "manual", "filtered")
+
+
+def _cond_fn(flag, _other):
+    """the link condition of the probe: the assignment is in force while its first stored parameter is 'T'"""
+    return flag == "T"
+
+
+def _cond_history(rng, domain):
+    """one history over a conditional role definition (the bundled temporal-roles shape): grouping rules
+    (u, r[, d], flag, 'x'), at most one per (u, r[, d]); condition functions registered per assignment through the
+    enforcer; and the maintenance calls that clear and rebuild the role links from the policy in force - none of which
+    changes an assignment, its stored parameters or a registered function:
+      reload    load_policy() from a store holding exactly the current rules
+      rebuild   build_role_links()
+      reject    load_policy() from a store with one more assignment and one unusable line (raises; rollback)
+      clearload clear_policy(), then load_policy() from the store holding the rules from before
+      manual    enable_auto_build_role_links(False); load_policy(); build_role_links(); enable(True)
+      filtered  load_filtered_policy() from a filtered store whose filter selects every current rule"""
+    names = ["a", "b", "c", "d"]
+    doms = ["d1", "d2"]
+    ns = names[: rng.randint(2, 4)]
+    present = {}
+    ever = []
+    hist = []
+    for _ in range(rng.randint(2, 9)):
+        key = (rng.choice(ns), rng.choice(ns)) + ((rng.choice(doms),) if domain else ())
+        x = rng.random()
+        if key in present and x < 0.35:
+            hist.append(("remove", key + present.pop(key)))
+        elif key not in present and x < 0.8:
+            present[key] = (rng.choice("TTF"), "x")
+            if key not in ever:
+                ever.append(key)
+            hist.append(("add", key + present[key]))
+        elif ever:
+            k2 = rng.choice(list(present) or ever) if rng.random() < 0.8 else rng.choice(ever)
+            hist.append(("condfn", k2))
+        if present and rng.random() < 0.5:
+            hist.append(("condfn", rng.choice(list(present))))
+        u, x2 = rng.choice(ns), rng.choice(ns)
+        hist.append(("enforce", (u, x2) + ((rng.choice(doms),) if domain else ())))
+        if rng.random() < 0.45:
+            kind = rng.choice(MAINT)
+            hist.append((kind, (ns[0], ns[-1]) + ((rng.choice(doms),) if domain else ())))
+            for key2 in list(present)[:3]:
+                hist.append(("enforce", key2))
+    for u in ns:
+        for x2 in ns:
+            for d in doms if domain else [None]:
+                hist.append(("enforce", (u, x2) + ((d,) if domain else ())))
+    return ns, hist
+
+
+def _cond_lines(domain, hist):
+    """driver lines of a conditional enforcer history; returns (lines, index of the answer of each entry)"""
+    lines = ["#reset", "new\t" + ("conddomain" if domain else "cond") + "\t10"]
+    at = []
+    nk = 3 if domain else 2
+    for k, l in hist:
+        key = [common.enc_str(x) for x in l[:nk]]
+        dom = common.enc_str(l[2] if domain else "")
+        if k == "add":
+            lines.append("\t".join(["add"] + key))
+            lines.append("\t".join(["params"] + key[:2] + [dom, common.enc_list([common.enc_str(p) for p in l[nk:]])]))
+        elif k == "remove":
+            lines.append("\t".join(["del"] + key))
+        elif k == "condfn":
+            lines.append("\t".join(["condfn"] + key[:2] + [dom, "P0"]))
+        else:  # enforce, and the maintenance calls (no change of the specification state: a query as placeholder)
+            lines.append("\t".join(["has"] + key))
+        at.append(len(lines) - 1)
+    return lines, at
+
+
+class _Store:
+    """a faithful in-memory store: delivers the rules it was given"""
+
+    def __init__(self, p, g):
+        self.p, self.g = [list(r) for r in p], [list(r) for r in g]
+
+    def load_policy(self, model):
+        for r in self.p:
+            model.model["p"]["p"].policy.append(list(r))
+        for r in self.g:
+            model.model["g"]["g"].policy.append(list(r))
+
+    def load_filtered_policy(self, model, filter):
+        self.load_policy(model)
+
+    def is_filtered(self):
+        return False
+
+    def save_policy(self, model):
+        return True
+
+    def add_policy(self, sec, ptype, rule):
+        pass
+
+    def remove_policy(self, sec, ptype, rule):
+        pass
+
+    def remove_filtered_policy(self, sec, ptype, field_index, *field_values):
+        pass
+
+
+def _cond_apply(e, k, l, domain):
+    """one entry of a conditional enforcer history on the real Enforcer; the answer of an enforce, else None"""
+    nk = 3 if domain else 2
+    if k == "add":
+        e.add_grouping_policy(*l)
+    elif k == "remove":
+        e.remove_grouping_policy(*l)
+    elif k == "condfn":
+        if domain:
+            e.add_named_domain_link_condition_func("g", l[0], l[1], l[2], _cond_fn)
+        else:
+            e.add_named_link_condition_func("g", l[0], l[1], _cond_fn)
+    elif k == "enforce":
+        got = e.enforce(*([l[0]] + list(l[2:nk]) + ["res_" + l[1], "read"]))
+        return "T" if got is True else "F" if got is False else repr(got)
+    else:
+        cur_p = [list(r) for r in e.get_policy()]
+        cur_g = [list(r) for r in e.get_grouping_policy()]
+        old = e.get_adapter()
+        try:
+            if k == "reload":
+                e.set_adapter(_Store(cur_p, cur_g))
+                e.load_policy()
+            elif k == "rebuild":
+                e.build_role_links()
+            elif k == "reject":
+                e.set_adapter(_Store(cur_p, cur_g + [list(l) + ["T", "x"], list(l)[:1]]))
+                try:
+                    e.load_policy()
+                except Exception:  # noqa (the rejection is the point)
+                    pass
+            elif k == "clearload":
+                e.set_adapter(_Store(cur_p, cur_g))
+                e.clear_policy()
+                e.load_policy()
+            elif k == "filtered":
+                e.set_adapter(_Store(cur_p, cur_g))
+                e.load_filtered_policy(None)
+            elif k == "manual":
+                e.set_adapter(_Store(cur_p, cur_g))
+                e.enable_auto_build_role_links(False)
+                try:
+                    e.load_policy()
+                finally:
+                    e.enable_auto_build_role_links(True)
+                e.build_role_links()
+        finally:
+            e.set_adapter(old)
+    return None
+
+
+def _cond_enforcer(casbin, domain, ns):
+    e = casbin.Enforcer(casbin.Enforcer.new_model(text=RBAC_DOM_COND if domain else RBAC_COND))
+    for x in ns:
+        for d in ["d1", "d2"] if domain else [None]:
+            e.add_policy(*([x] + ([d] if domain else []) + ["res_" + x, "read"]))
+    return e
+
+
+def enforce_probe_cond(ctx, res, prop, n):
+    """g() through the real Enforcer on a conditional role definition (g = _, _, (_, _) / g = _, _, _, (_, _)) against
+    the specification: enforce(u, [d,] res_x, read) must equal "x is reachable from u along the assignments in force
+    whose condition - if one is registered - returns true for the stored parameters", across reloads, rebuilds, rejected
+    reloads and clear + load (which keep assignments, parameters and registered functions as they are)"""
+    casbin = common.use_repo()
+    rng = ctx["rng"]
+    cases = []
+    for it in range(n):
+        domain = it % 2 == 1
+        ns, hist = _cond_history(rng, domain)
+        cases.append((domain, ns, hist))
+    lines, ats = [], []
+    for domain, ns, hist in cases:
+        ls, at = _cond_lines(domain, hist)
+        ats.append([len(lines) + i for i in at])
+        lines += ls
+    answers = rm_corr.run_driver("rm", lines)
+    for (domain, ns, hist), at in zip(cases, ats):
+        shape = "conddomain" if domain else "cond"
+        e = _cond_enforcer(casbin, domain, ns)
+        for i, (k, l) in enumerate(hist):
+            res.evaluations += 1
+            res.count("stream:enforce-" + shape)
+            res.count("cond-op:" + k)
+            spec = "ok"
+            if k == "enforce":
+                _, spec = rm_corr.parse_ms(answers[at[i]])
+            try:
+                got = _cond_apply(e, k, l, domain)
+                if got is None:
+                    got = "ok"
+            except Exception as ex:  # noqa
+                got = rm_corr.fmt_exc(ex)
+            if got == "T" and l[0] != l[1]:
+                res.nontrivial.add(hash(("enfc", domain, repr(hist[: i + 1]))))
+            if k == "enforce" and got == "F" and any(k2 == "condfn" for k2, _ in hist[:i]):
+                res.count("cond-answer:F-with-conditions")
+            if spec != "?" and got != spec:
+                h2 = hist[: i + 1]
+                if res._per_sig.get(_cond_sig(prop, shape, h2, got), 0) < 3:
+                    h2 = _cond_shrink(domain, ns, h2, spec)
+                sig = _cond_sig(prop, shape, h2, got)
+                res.violation(
+                    {
+                        "signature": sig,
+                        "what": f"{shape} model: {k}{tuple(h2[-1][1])} answered {got} after {h2[:-1]}; reachability over the "
+                        f"assignments in force whose registered condition holds on the stored parameters gives {spec}",
+                        "model_text": RBAC_DOM_COND if domain else RBAC_COND,
+                        "names": ns,
+                        "enf_history": [[k2, list(l2)] for k2, l2 in h2],
+                        "observed": got,
+                        "expected": spec,
+                        "replay_kind": "enforce-cond",
+                    }
+                )
+                if got.startswith("!"):
+                    break
+    return res
+
+
+def _cond_sig(prop, shape, hist, got):
+    """failing call; for a decision: the last maintenance call before it and the direction of the error
+    (granted = a role held that the assignments in force do not give, denied = a role in force not held)"""
+    k = hist[-1][0]
+    if k != "enforce":
+        return f"{prop}:enforce:{shape}:{k}"
+    maint = [k2 for k2, _ in hist if k2 in MAINT]
+    return f"{prop}:enforce:{shape}:after-{maint[-1] if maint else 'none'}:{'granted' if got == 'T' else 'denied' if got == 'F' else 'error'}"
+
+
+def _cond_run(domain, ns, hist):
+    casbin = common.use_repo()
+    e = _cond_enforcer(casbin, domain, ns)
+    got = None
+    for k, l in hist:
+        try:
+            got = _cond_apply(e, k, tuple(l), domain)
+            if got is None:
+                got = "ok"
+        except Exception as ex:  # noqa
+            got = rm_corr.fmt_exc(ex)
+    return got
+
+
+def _cond_shrink(domain, ns, hist, spec_last, budget=60):
+    """greedy removal of entries before the failing (last) one; an entry goes only if the specification's answer for
+    the last entry stays and the real code still contradicts it"""
+    hist = list(hist)
+    i = 0
+    while i < len(hist) - 1 and budget > 0:
+        cand = hist[:i] + hist[i + 1 :]
+        budget -= 1
+        try:
+            lines, at = _cond_lines(domain, cand)
+            spec = "ok"
+            if cand[-1][0] == "enforce":
+                _, spec = rm_corr.parse_ms(rm_corr.run_driver("rm", lines)[at[-1]])
+            bad = spec == spec_last and _cond_run(domain, ns, cand) != spec
+        except common.Infra:
+            bad = False
+        if bad:
+            hist = cand
+        else:
+            i += 1
+    return hist
+
+
+def replay_enforce_cond(obj):
+    domain = "r.dom" in obj["model_text"]
+    return _cond_run(domain, obj["names"], [(k, tuple(l)) for k, l in obj["enf_history"]]) != obj["expected"]
+
+
 # ------------------------------------------------------------------ entry points
 
 
@@ -446,7 +760,7 @@ def run(ctx):
         if stage == "quick":
             hs += list(gen_digraphs(N3, PAIRS3, rm_corr.KINDS))
             hs += list(gen_small_histories(4 if False else 3))
-            hs += list(gen_chains()) + list(gen_lollipops()) + list(gen_conditions()) + list(gen_glue())
+            hs += list(gen_chains()) + list(gen_lollipops()) + list(gen_conditions()) + list(gen_cond_reload()) + list(gen_glue())
             hs += list(gen_small_histories_len4())
             hs += list(gen_random(rng, 4000, 14))
             nenf = 300
@@ -464,7 +778,7 @@ def run(ctx):
             hs += list(gen_digraphs(N3, PAIRS3, rm_corr.KINDS))
             hs += list(gen_digraphs(n4, p4, ("plain",)))
             hs += list(gen_small_histories(3)) + list(gen_small_histories_len4())
-            hs += list(gen_chains()) + list(gen_lollipops()) + list(gen_conditions()) + list(gen_glue())
+            hs += list(gen_chains()) + list(gen_lollipops()) + list(gen_conditions()) + list(gen_cond_reload()) + list(gen_glue())
             hs += list(gen_random(rng, 60000, 30))
             nenf = 3000
             res.rule = (
@@ -474,6 +788,7 @@ def run(ctx):
         res.exhaustive = True
         rm_corr.run_all(ctx, res, "C03", hs, chunk=300)
         enforce_probe(ctx, res, "C03", nenf)
+        enforce_probe_cond(ctx, res, "C03", nenf)
         if res.spec_violations:
             break
     return res
@@ -513,4 +828,6 @@ def gen_small_histories_len4():
 def replay(obj):
     if obj.get("replay_kind") == "enforce":
         return replay_enforce(obj)
+    if obj.get("replay_kind") == "enforce-cond":
+        return replay_enforce_cond(obj)
     return rm_corr.replay(obj)
